@@ -173,10 +173,15 @@ class Issue:
 
 
 def load_known() -> list[dict]:
+    out = []
     p = VERIF / "known_findings.json"
-    if not p.exists():
-        return []
-    return json.loads(p.read_text()).get("findings", [])
+    if p.exists():
+        out += json.loads(p.read_text()).get("findings", [])
+    d = VERIF / "known_findings.d"
+    if d.is_dir():
+        for q in sorted(d.glob("*.json")):
+            out += json.loads(q.read_text()).get("findings", [])
+    return out
 
 
 def known_match(issue: Issue, known: list[dict]) -> Optional[dict]:
